@@ -194,6 +194,8 @@ def run(tier):
                        "broadcast views repeat one value (the layout, not the values, is what is probed)"]
     specs = corpus.quick_specs() if tier == "quick" else corpus.thorough_specs()
     cases = corpus.generate(rep, specs)
+    if tier == "thorough":
+        cases = corpus.cap(cases, 30000)
     rep.exhaustive = True
     if tier == "quick":
         keep = {"elementwise": 24, "update_at": 40, "get_at": 12, "id": 12, "preserve": 6, "argfind": 8, "reduce": 3}
